@@ -14,6 +14,32 @@ sys.path.insert(0, os.path.join(here, "tools"))
 from claims import register   # noqa
 register(claim)
 
+
+# additions made after the independent bug hunts (DESIGN.md 7.5c): appended to the level text of the extended checks
+ADDENDA = {
+ "C01": "Extended (7.5c): structural calls (extend/remove) are also made from a doer's enter context (search 'enter-context-calls').",
+ "C02": "Extended (7.5c): doers that removed themselves and are still alive at the stop ARE ordered by when they were entered (the earlier relaxation was withdrawn); enter-context calls generated.",
+ "C06": "Extended (7.5c): enter-context calls; membership vs running lifecycles (entered twice / never entered); model-independent clause that within a cycle the doers of one host recur in the order they were entered, also after runtime extends.",
+ "C07": "Extended (7.5c): a float-clock class with an exact Fraction clock, non-dyadic tocks, epoch-sized clock bases and up to 64 (thorough 200) cycles; tolerance fixed at 4 ulp of the largest clock reading (+2 ulp per backward step), independent of the cycle number.",
+ "C10": "Extended (7.5c): 69 further enumerated set-up fault cells (connection dies after k address queries or at the TLS wrap step, with and without queued bytes; every property errno at the wrap probe) on Server, ServerTls, Client, ClientTls, plus late-dying connections in the schedules and a client dial search on the real accept/connect/wrap/handshake code.",
+ "C11": "Extended (7.5c): case field hold (the harness keeps the Remoters it saw in .ixes / .cxes, as an application does), replacement of established TLS connections, sockets queued by serviceAccepts() only, and a focused 'server-replacements' search.",
+ "C12": "Extended (7.5c): an https dimension (http.Server and BareServer on the fake TLS servant) with per-connection handshake delay incl. never completing; pending handshakes are judged by the same deadline rule.",
+ "C13": "Extended (7.5c): start lines, header lines, chunk-size lines and trailer lines of exactly the maximum size and +-1, with cuts at every offset around their terminator.",
+ "C14": "Extended (7.5c): repeated header names (parser getall() in order, environ comma-joined) and an explicit Content-Length on every method incl. GET.",
+ "C15": "Extended (7.5c): reference re-derived from the SSE dispatch rules (an empty data line dispatches an event with empty data); event streams delimited by Content-Length; streams resumed through a real reconnecting Client on the in-memory connector.",
+ "C16": "Extended (7.5c): second enumeration group (1984 cells) and mutations for percent-encoded targets, deep JSON, hostile event streams (invalid UTF-8, non-latin-1 ids, huge retry), hostile Location values, reconnectable / dictable clients, and https targets (wsgi-tls, bare-tls, client-tls) on the fake TLS layer.",
+ "C17": "Extended (7.5c): through Client.responses each delivered body is read again after the following response was decoded.",
+ "C18": "Extended (7.5c): segmented delivery with service cycles between a request's head and body, chunked request bodies, HEAD and 204/304, pieces handed to the write() callable incl. empty ones, start_response replaced with exc_info.",
+ "C19": "Extended (7.5c): HEAD/DELETE/PATCH/OPTIONS, caller data on requests, 3xx without Location, refused downgrade followed by a 2xx with a Location header, answers cut by the server at any byte, close-delimited answers.",
+ "C23": "Extended (7.5c): values that are equal in Python but serialise differently (1 / 1.0 / True twins) and one-shot iterator arguments.",
+ "C24": "Extended (7.5c): non-default ionsep separators ('-', '|', '_', ':') for IoSuber / IoSetSuber with keys containing the separator, and a statement-only read-back (get + cnt).",
+ "C28": "Extended (7.5c): classes declared under from __future__ import annotations, Optional / list / dict hints, Any fields holding data objects (Bag, IceBag, Can), field(init=False), nested _dictify/_datify hook pairs; five shapes are open known findings recognised only when the result is exactly the sent object with the nested objects of that shape replaced by their plain dicts.",
+ "C29": "Extended (7.5c): up to three reopens and 288 enumerated reopen histories of temp resources before the clearing close.",
+}
+for _pid, _txt in ADDENDA.items():
+    _c = CLAIMED[_pid]
+    CLAIMED[_pid] = (_c[0], _c[1], _c[2] + " " + _txt, _c[3])
+
 NOT_YET = "check not built yet (work in progress); will be claimed once its check is registered"
 man = {
  "version": 1,
@@ -30,7 +56,7 @@ man = {
    "kind_free_text": "Hypothesis 6.168 generated-input search (plus complete enumeration of small finite sub-domains) against explicit oracles, collect-classify-shrink with known-findings file; ./check <id> quick|thorough"},
  ],
  "checks": [],
- "notes": "All checks: exit 0 held / exit 1 + VIOLATION line / exit 2 harness error. VERIF_SEED seeds every generator. known_findings.json lists open and fixed genuine defects with witnesses; seeded/ holds 179 independently written breaking changes (175 reported by their check, four neutralised by later repairs of the defect they relied on), benign/ holds 90 independently written behaviour-preserving rewrites, legitimate behaviour changes and differently-made free choices on which every check stays quiet after the five oracle over-reaches they exposed were corrected (see DESIGN.md 7.5, 7.5b).",
+ "notes": "All checks: exit 0 held / exit 1 + VIOLATION line / exit 2 harness error. VERIF_SEED seeds every generator. known_findings.json lists open and fixed genuine defects with witnesses; seeded/ holds 179 independently written breaking changes (re-based onto the repaired tree; those neutralised by a later repair of the defect they relied on carry a note_after_later_fix), benign/ holds 90 independently written behaviour-preserving rewrites, legitimate behaviour changes and differently-made free choices on which every check stayed quiet after the five oracle over-reaches they exposed were corrected, hunts/ holds 30 independent bug-hunting reports on the unchanged tree whose in-domain findings the checks were extended to find by themselves (43 further repairs, 5 open findings) (see DESIGN.md 7.5, 7.5b, 7.5c).",
  "not_applicable": [],
 }
 for pid in ids:
